@@ -152,6 +152,15 @@ def mutate(rng, code):
 REGRESSION_PROGRAMS = [
     "f'\\{x}'\n", "f'\\{{'\n", "f'a\\}}'\n", "rf'\\{x}'\n", "f'''\\{x}'''\n", "x = f'\\{a}' + f\"\\{{b\"\n",
     "f'{a:\\{b}}'\n", "f'\\\\{x}\\}}'\n",
+    # a character that starts no token as the first thing on an indented / dedented line (the tokenizer's scan branch
+    # does the indentation bookkeeping there); found unexecuted by a coverage run of the quick tier
+    # rule branches of the error finder / PEP 8 checker a coverage run of the quick tier found unexecuted
+    "for x in y:\n  try:\n    pass\n  finally:\n    continue\n", "b'\xe9'\n", "from __future__ import braces\n",
+    "f'{f\"{f\'\'\'{1}\'\'\'}\"}'\n", "{a: b} = 1\n", "{**a} = 1\n", "{a: b} += 1\n", "for a, b() in c: pass\n", "del a, b()\n",
+    "[a for a in b if (c := a) for c in d]\n", "[i := 1 for i in range(2)]\n", "(x := y for y in z)\n[(a, b) := 1]\n",
+    "l = 1\nO = 2\ndef I(): pass\nclass l: pass\n", "def f(l): return l\nlambda O: O\n",
+    "x = 1\n\n\n\n", "async def f():\n  [await a async for a in b]\n  yield from c\n",
+    "if a:\n    b\n  $\nc\n", "  $", "if a:\n  ?\nb\n", "if a:\n    $\n    b\n$\n", "class C:\n  def f():\n    x\n  `\n",
 ]
 
 
